@@ -256,3 +256,47 @@ PROPS = {
                         "heap growth of the real decoder is measured, not proved"],
     },
 }
+
+# ---- transaction-level properties (components recv / send) -----------------------------------
+_TX_RULE = ("cases = lock-step scripts against one real RecvTransaction / SendTransaction on tokio's paused clock: a "
+            "plausible exchange (random file 0..6 segments incl. zero runs and checksum-neutral word pairs, segment sizes "
+            "16..48, both modes, closure on/off, CRC on/off, immediate/deferred NAK x delay 0/50/700 ms, limits 1..4, "
+            "timeouts 1..9 s, random fault-handler map) perturbed by drops, duplicates, swaps, stray PDUs, user requests "
+            "(cancel/suspend/resume/report/abandon/prompt), time advances landing just before/on/after each deadline; "
+            "one observation per operation (result class, emitted PDUs, indications, state, has_pdu_to_send, until_timeout, "
+            "progress, destination file); non-trivial = at least 2 operations; distinct = distinct op-list text")
+_TX_EXPL = ("Theorems over the hand-written Gallina models Model/Recv.v / Model/Send.v (every function of recv.rs / send.rs, "
+            "branch for branch, with the filestore and checksum as parameters), for all operation sequences and time "
+            "stamps. The models are tied to the code by lock-step differential execution of the extracted models against the "
+            "real transaction objects (hooks under cfg cfdp_verif), with the property's own oracle evaluated on the "
+            "implementation's outputs.")
+_TX_NOTE = ("Trusted: Coq kernel; extraction (ExtrOcamlBasic); OCaml driver and Rust harness (parsing/printing); tokio's paused "
+            "clock standing for std::time::Instant (hook in timer.rs); the model-to-code correspondence is tested on generated "
+            "scripts, not proved. The select! loops, channels and task scheduling of lib.rs are outside the model: SEND / "
+            "TIMEOUT operations are executed exactly when the loop's arm would be enabled.")
+_TX_ASSUME = ["timeouts > 0 (a zero timeout makes Counter::update spin; configuration guard)",
+              "segment size >= 4 * file-size-field length (NAK minimum) and <= 65527",
+              "source file unchanged during the transfer; temporary-file and source-file I/O does not fail",
+              "commands are delivered to a transaction only while its loop runs (state not Terminated)"]
+
+def _tx(props_file, theorems, comps, level_text, extra_note=""):
+    return {"props_files": [props_file], "theorems": theorems, "components": comps, "rule": _TX_RULE,
+            "explanation": _TX_EXPL, "level_text": level_text, "level_note": _TX_NOTE + extra_note,
+            "assumptions": _TX_ASSUME}
+
+PROPS["C04"] = _tx("C04", ["C04_delivery_is_final", "C04_no_integrity_failure_after_success"], ["recv"],
+    "Proof on the receive-transaction model for every operation sequence: once the receive-data phase is left the "
+    "filestore (delivered file, effects of filestore requests) never changes again and finalisation cannot recur; after a "
+    "successful delivery no later output reports FileChecksumFailure/FilesizeError. Lock-step correspondence with the real "
+    "RecvTransaction plus an implementation-side oracle (file unchanged, no second Finished, no integrity fault).",
+    " The clause 'a sending entity reports success only for a transaction its receiver reported as delivered' is a "
+    "system-level statement (the only source of Finished PDUs is the receiver); it is covered by the sender model taking "
+    "its Finished indication from the received Finished PDU, not by a separate theorem. Re-spawn of an already ENDED "
+    "transaction by the daemon is C11's.")
+PROPS["C10"] = _tx("C10", ["C10_cancel_effect", "C10_no_file_after_cancel", "C10_peer_cancel"], ["recv", "send"],
+    "Proof (safety half) on the receive-transaction model: a user cancel or a peer cancel (EOF with an error condition) "
+    "moves to the Cancelled phase with the cancel condition, and from then on no operation sequence writes the filestore - "
+    "a partial file is never exposed. Lock-step correspondence for receiver and sender plus an oracle on the real code "
+    "(destination must not appear or change after a cancel that preceded delivery).",
+    " Termination of the cancel handshake within the limits is the subject of C03 (partial); 'at the peer too when "
+    "reachable' needs the two-machine composition and is exercised by the lock-step scripts only.")
